@@ -76,6 +76,7 @@ type topicsModel struct {
 	who  whoTable
 	subs []interface{}
 	qoss []byte
+	held []heldMsg
 }
 
 type tAct struct {
@@ -113,6 +114,37 @@ type tProbe struct {
 
 func (m *topicsModel) Reset() {
 	m.mt = topics.NewMemProvider()
+	m.held = nil
+}
+
+// heldMsg: a message object handed out by a retained look-up, with the bytes it encoded to at that moment. The store
+// hands its messages out by reference (the broker encodes them later, possibly while the topic is being updated), so
+// whatever happens to the store afterwards, the object must keep encoding to the same packet.
+type heldMsg struct {
+	msg  *message.PublishMessage
+	snap []byte
+	desc string
+}
+
+func encodeOf(x *message.PublishMessage) []byte {
+	b := make([]byte, x.Len())
+	n, err := x.Encode(b)
+	if err != nil {
+		return []byte("error: " + err.Error())
+	}
+	return b[:n]
+}
+
+func (m *topicsModel) checkHeld() string {
+	for _, h := range m.held {
+		if now := encodeOf(h.msg); !bytes.Equal(now, h.snap) {
+			return fmt.Sprintf("a message handed out earlier by a retained look-up (%s, %d bytes) now encodes to other bytes (%d bytes): the stored message was rewritten in place by a later update of the store", h.desc, len(h.snap), len(now))
+		}
+	}
+	if len(m.held) > 48 {
+		m.held = m.held[len(m.held)-24:]
+	}
+	return ""
 }
 
 func (m *topicsModel) Do(araw, rraw json.RawMessage, check bool) string {
@@ -176,6 +208,9 @@ func (m *topicsModel) Check(praw json.RawMessage) string {
 	if err := json.Unmarshal(praw, &p); err != nil {
 		return "bad probe: " + err.Error()
 	}
+	if d := m.checkHeld(); d != "" {
+		return d
+	}
 	for _, s := range p.Sub {
 		err := m.mt.Subscribers([]byte(s.T), byte(s.Pq), &m.subs, &m.qoss)
 		if err != nil {
@@ -211,6 +246,7 @@ func (m *topicsModel) Check(praw json.RawMessage) string {
 				tag = fmt.Sprintf("?len%d", len(x.Payload()))
 			}
 			got = append(got, fmt.Sprintf("%s=%s@%d r%v", x.Topic(), tag, x.QoS(), x.Retain()))
+			m.held = append(m.held, heldMsg{msg: x, snap: encodeOf(x), desc: fmt.Sprintf("%s=%s@%d", x.Topic(), tag, x.QoS())})
 		}
 		for _, e := range r.Set {
 			exp = append(exp, fmt.Sprintf("%s=%s@%d r%v", e.T, e.Pl, e.Q, true))
